@@ -3,6 +3,7 @@
 // taken off the network).
 //   1. healthy meshes with heterogeneous peer timeouts / keep-alives: nobody ever forgets a reachable peer (checked between
 //      housekeeping and delivery, so a forget-and-redial within one second is seen);
+//   1b. a node that restarts with a different advertised timeout and reconnects from the same address is not forgotten afterwards;
 //   2. a peer that goes silent is forgotten once the OWN peer timeout has passed, whatever timeout it advertised, and from then on
 //      neither its claims (router) nor the addresses learned from it (switch) select it as next hop.
 use super::*;
@@ -13,6 +14,18 @@ fn fail(failing: &mut usize, msg: String) {
     if *failing <= 3 { println!("FAILING-INPUT: {}", msg); }
 }
 
+// delivery with a budget: an endless exchange of datagrams within one instant (a redial / re-handshake loop) is reported, not waited for
+fn drain<P: Protocol>(sim: &mut Simulator<P>) -> bool {
+    let mut n = 0usize;
+    while !sim.messages.is_empty() {
+        sim.simulate_next_message();
+        n += 1;
+        if n > 20000 { sim.messages.clear(); return false; }
+    }
+    true
+}
+macro_rules! deliver { ($sim:expr, $failing:expr, $what:expr) => { if !drain(&mut $sim) { fail($failing, format!("{}: the nodes exchange more than 20000 datagrams within one instant (endless redial / re-handshake loop)", $what)); return; } }; }
+
 fn cfg(device_type: Type, peer_timeout: u32, keepalive: Option<u32>) -> Config {
     Config { device_type, peer_timeout, keepalive, ..Config::default() }
 }
@@ -21,7 +34,7 @@ fn healthy_mesh(settings: &[(u32, Option<u32>)], horizon: Time, failing: &mut us
     let mut sim = TapSimulator::new();
     let nodes: Vec<SocketAddr> = settings.iter().map(|(t, k)| sim.add_node(false, &cfg(Type::Tap, *t, *k))).collect();
     for i in 0..nodes.len() { for j in i + 1..nodes.len() { sim.connect(nodes[i], nodes[j]); } }
-    sim.simulate_all_messages();
+    deliver!(sim, failing, format!("mesh {:?}", settings));
     for &a in &nodes { for &b in &nodes { if a != b && !sim.is_connected(a, b) { fail(failing, format!("mesh {:?}: {} and {} do not connect", settings, a, b)); return; } } }
     let mut t = 0;
     while t < horizon {
@@ -34,7 +47,48 @@ fn healthy_mesh(settings: &[(u32, Option<u32>)], horizon: Time, failing: &mut us
                 return;
             }
         } }
-        sim.simulate_all_messages();
+        deliver!(sim, failing, "healthy mesh / restart scenario");
+    }
+}
+
+// a node RESTARTS (new node object, same address, different advertised timeout) and reconnects while its old entry is still in the peer
+// list of the other node: from then on the mesh is healthy again and nobody may forget anybody
+fn restarted_peer(a_timeout: u32, b_before: u32, b_after: u32, failing: &mut usize) {
+    let mut sim = TapSimulator::new();
+    let a = sim.add_node(false, &cfg(Type::Tap, a_timeout, None));
+    let b = sim.add_node(false, &cfg(Type::Tap, b_before, None));
+    sim.connect(a, b);
+    deliver!(sim, failing, "healthy mesh / restart scenario");
+    if !sim.is_connected(a, b) || !sim.is_connected(b, a) { fail(failing, format!("restart {}->{}: nodes do not connect", b_before, b_after)); return; }
+    let mut t: Time = 0;
+    // (wait until the handshake object lingering in A has closed, 60 s: while it lingers, A answers every ping of a restarted B with its
+    // stored peng and B answers every peng with its stored ping - an endless exchange; observation recorded in DESIGN.md under C05)
+    while t < 80 { t += 1; sim.set_time(t); sim.trigger_housekeep(); deliver!(sim, failing, "restart scenario"); }
+    // restart B
+    {
+        let mut config = cfg(Type::Tap, b_after, None);
+        MockSocket::set_nat(false);
+        config.listen = format!("[::]:{}", b.port());
+        config.crypto.password = Some("test123".to_string());
+        let node = TestNode::new(&config, MockSocket::new(b), MockDevice::new(), None, None);
+        sim.nodes.insert(b, node);
+        sim.messages.clear();
+    }
+    sim.connect(b, a);
+    deliver!(sim, failing, "healthy mesh / restart scenario");
+    if !sim.is_connected(a, b) || !sim.is_connected(b, a) { fail(failing, format!("restart {}->{}: the restarted node does not reconnect", b_before, b_after)); return; }
+    let settle = 3 * a_timeout.max(b_before).max(b_after).min(1200) as Time;
+    let end = t + 2 * settle;
+    let from = t + settle;
+    while t < end {
+        t += 1;
+        sim.set_time(t);
+        sim.trigger_housekeep();
+        if t >= from && (!sim.is_connected(a, b) || !sim.is_connected(b, a)) {
+            fail(failing, format!("node B (peer timeout {} s) restarts with peer timeout {} s and reconnects to A (peer timeout {} s) from the same address: at t={} on a delivering network {} has forgotten its healthy peer", b_before, b_after, a_timeout, t, if !sim.is_connected(b, a) { "B" } else { "A" }));
+            return;
+        }
+        deliver!(sim, failing, "healthy mesh / restart scenario");
     }
 }
 
@@ -48,17 +102,17 @@ fn silent_peer(own_timeout: u32, silent_timeout: u32, tap: bool, failing: &mut u
         let b = $sim.add_node(false, &Config { claims: $cb, ..cfg($ty, silent_timeout, None) });
         let c = $sim.add_node(false, &Config { claims: $cc, ..cfg($ty, own_timeout, None) });
         $sim.connect(a, b); $sim.connect(a, c); $sim.connect(b, c);
-        $sim.simulate_all_messages();
+        deliver!($sim, failing, format!("{}: silent peer scenario", what));
         if !$sim.is_connected(a, b) || !$sim.is_connected(a, c) { fail(failing, format!("{}: nodes do not connect", what)); return; }
         // B talks (A learns its address in switch mode), then leaves the network without a close message
         $sim.put_payload(b, $from_b);
-        $sim.simulate_all_messages();
+        deliver!($sim, failing, format!("{}: silent peer scenario", what));
         while $sim.pop_payload(a).is_some() {}
         while $sim.pop_payload(c).is_some() {}
         let t0: Time = 10;
         $sim.set_time(t0);
         $sim.put_payload(b, $from_b);
-        $sim.simulate_all_messages();
+        deliver!($sim, failing, format!("{}: silent peer scenario", what));
         $sim.nodes.remove(&b);
         let mut t = t0;
         let deadline = t0 + own_timeout as Time + 2;
@@ -68,7 +122,7 @@ fn silent_peer(own_timeout: u32, silent_timeout: u32, tap: bool, failing: &mut u
             $sim.set_time(t);
             $sim.trigger_node_housekeep(a);
             $sim.trigger_node_housekeep(c);
-            $sim.simulate_all_messages();
+            deliver!($sim, failing, format!("{}: silent peer scenario", what));
             if t >= deadline {
                 if $sim.is_connected(a, b) {
                     fail(failing, format!("{}: own peer timeout {} s, silent peer advertised {} s: at t={} ({} s after its last message) the silent peer is still a peer", what, own_timeout, silent_timeout, t, t - t0));
@@ -119,6 +173,9 @@ fn peers_time_out_when_silent_and_never_when_healthy() {
     ].iter() {
         let horizon = 3 * settings.iter().map(|s| s.0).max().unwrap().min(1200) as Time;
         healthy_mesh(settings, horizon, &mut failing);
+    }
+    for &(ta, b0, b1) in [(300u32, 300u32, 30u32), (300, 300, 59), (120, 60, 1000), (300, 1000, 45)].iter() {
+        restarted_peer(ta, b0, b1, &mut failing);
     }
     for &(own, silent) in [(60u32, 600u32), (300, 60), (120, 120), (200, 1000)].iter() {
         silent_peer(own, silent, true, &mut failing);
